@@ -332,7 +332,9 @@ def view(I, x, *shape):
         I.raise_("RuntimeError", "view")
     if neg:
         rest = zprod([s for i, s in enumerate(shape) if i != neg[0]])
-        cands = [zprod(x.shape[:j]) for j in range(x.rank + 1)]
+        flat = [c for cs in x.comps for c in cs]
+        cands = [zprod(x.shape[:j]) for j in range(x.rank + 1)] + \
+            [zprod(flat[i:j]) for i in range(len(flat)) for j in range(i + 1, len(flat) + 1)]
         for c in cands:
             if zeq(I, c * rest, total):
                 shape[neg[0]] = c
